@@ -285,7 +285,13 @@ func (vc *FnVC) callModifies(c *ssa.CallCommon) (comps []string, all bool, keep 
 					if _, isGhost := vc.prog.cs.Ghosts[loc]; isGhost {
 						continue
 					}
-					if strings.HasPrefix(loc, "globals(") {
+					if strings.HasPrefix(loc, "globals(") && strings.HasSuffix(loc, ")") {
+						pfx := "G$" + sanitize(loc[len("globals("):len(loc)-1]) + "$"
+						for c := range vc.compSort {
+							if strings.HasPrefix(c, pfx) {
+								ks["comp:"+c] = true
+							}
+						}
 						continue
 					}
 					if env := vc.dummyEnvFor(fc); env != nil {
@@ -717,7 +723,17 @@ func (vc *FnVC) applyContract(fc *FuncContract, sig *types.Signature, args []Val
 				if _, isGhost := vc.prog.cs.Ghosts[loc]; isGhost {
 					continue
 				}
-				if strings.HasPrefix(loc, "all(") || strings.HasPrefix(loc, "globals(") {
+				if strings.HasPrefix(loc, "globals(") && strings.HasSuffix(loc, ")") {
+					// the package-level variables of that package keep their values
+					pfx := "G$" + sanitize(loc[len("globals("):len(loc)-1]) + "$"
+					for _, c := range sortedKeys(vc.compSort) {
+						if strings.HasPrefix(c, pfx) {
+							st.comp[c] = vc.cur(pre, c)
+						}
+					}
+					continue
+				}
+				if strings.HasPrefix(loc, "all(") {
 					continue
 				}
 				for _, c := range env.compsOfLocSpec(loc) {
